@@ -151,7 +151,7 @@ def _set_with_op(container: Any, key: Any, op: str, value: Any) -> Any:
     elif op == '*=':
         container[key] = _multiply(container[key], value)
     elif op == '/=':
-        container[key] /= value
+        container[key] = _divide(container[key], value)
     else:
         raise ParserError(f'Unsupported short op: {op}')
 
@@ -332,6 +332,14 @@ def _multiply(op1: Any, op2: Any) -> Any:
         raise ParserError(f'Can\'t multiply non-numbers')
 
     return Decimal(op1) * Decimal(op2)
+
+
+def _divide(op1: Any, op2: Any) -> Any:
+    # Python divides two ints into a binary float; the language computes in decimals
+    if isinstance(op1, int) and isinstance(op2, int):
+        return Decimal(op1) / Decimal(op2)
+
+    return op1 / op2
 
 
 def _is_big_integral(v: Any) -> bool:
